@@ -14,7 +14,7 @@ PROPS = {
             "trusted_base": [ASTRO_TB, "independent Meeus new-moon / solar-longitude computation in the harness is an oracle definition (validation, not proof)"],
             "open_obligations": ["month begins on the civil day of the true new moon (1645..3000): validated against the independent ephemeris in search-C02, not a theorem",
                                  "ICU comparison: ICU is not installed; not checked"]},
-    "C03": {"lean_target": ["Props.C03", "Props.Purity"], "gens": ["gen-ly", "gen-terms"], "searches": ["search-C03"],
+    "C03": {"lean_target": ["Props.C03", "Props.FnSC03", "Props.Purity"], "gens": ["gen-ly", "gen-terms"], "searches": ["search-C03"],
             "trusted_base": [ASTRO_TB, STD_TB],
             "open_obligations": ["term instant = root of the apparent solar longitude: validated in search-C03 against the library's own ephemeris (hook VerifSaLon), not a theorem"]},
     "C04": {"lean_target": ["Props.C04", "Props.Purity", "Props.FnC04"], "gens": ["gen-civil", "gen-jd"], "searches": ["search-C04"],
